@@ -163,9 +163,22 @@ def make_image(rng_seed, h, w, c):
     return np.clip(img, 0, 255).astype(np.uint8)
 
 
+def iraw(inst):
+    """Points of a spec instance as stored: a plain list is a user instance, {"pred": true, "pts": […]} a
+    predicted one.  A point is [x, y], None (stored as NaN) or {"hidden": [x, y]}: stored through the
+    sleap-io API with FINITE coordinates and `visible = False`."""
+    return inst["pts"] if isinstance(inst, dict) and "pts" in inst else inst
+
+
+def pvis(q):
+    """The `Instance.numpy()` abstraction of a stored point (what the model's labelled frame holds):
+    an invisible point is missing whatever its stored coordinates."""
+    return None if (q is None or isinstance(q, dict)) else q
+
+
 def ipts(inst):
-    """Keypoints of a spec instance: a plain list is a user instance, {"pred": true, "pts": […]} a predicted one."""
-    return inst["pts"] if isinstance(inst, dict) else inst
+    """Keypoints of a spec instance as `Instance.numpy()` returns them."""
+    return [pvis(q) for q in iraw(inst)]
 
 
 def ipred(inst):
@@ -204,11 +217,17 @@ def build_labels(spec):
     for fr in spec["frames"]:
         insts = []
         for inst in fr["insts"]:
-            arr = np.array([[np.nan, np.nan] if p is None else [p[0], p[1]] for p in ipts(inst)], dtype=float)
+            raw_pts = iraw(inst)
+            arr = np.array([[np.nan, np.nan] if p is None else (p["hidden"] if isinstance(p, dict) else [p[0], p[1]])
+                            for p in raw_pts], dtype=float)
             if ipred(inst):
-                insts.append(sio.PredictedInstance.from_numpy(arr, skel, point_scores=np.ones(len(arr)), score=0.9))
+                obj = sio.PredictedInstance.from_numpy(arr, skel, point_scores=np.ones(len(arr)), score=0.9)
             else:
-                insts.append(sio.Instance.from_numpy(arr, skeleton=skel))
+                obj = sio.Instance.from_numpy(arr, skeleton=skel)
+            for k_, p in enumerate(raw_pts):
+                if isinstance(p, dict):                 # finite xy kept, marked invisible
+                    obj.points["visible"][k_] = False
+            insts.append(obj)
         lfs.append(sio.LabeledFrame(video=vids[fr["video"]], frame_idx=fr["t"], instances=insts))
     return sio.Labels(labeled_frames=lfs, videos=vids, skeletons=[skel])
 
@@ -247,10 +266,17 @@ def history_order(n):
     return list(range(n)) * 2 if n > 1 else [0, 0, 0][: 3 * n]
 
 
-def read_history(ds, n):
+def read_history(ds, n, tolerate=False):
     """→ [(index, sample)] in `history_order`; the samples are deep copies taken at fetch time, so a
-    later fetch cannot retroactively change what an earlier one is recorded to have returned."""
-    return [(i, copy.deepcopy(ds[i])) for i in history_order(n)]
+    later fetch cannot retroactively change what an earlier one is recorded to have returned.
+    `tolerate`: a fetch that raises is recorded as `("raise", Class, msg)` instead of propagating — used
+    for `use_existing_chunks=True`, where a stale file of another labels object (other node count) can
+    make `__getitem__` fail (part of F-C18e)."""
+    out = []
+    for i in history_order(n):
+        r = call(lambda: copy.deepcopy(ds[i])) if tolerate else ("ok", copy.deepcopy(ds[i]))
+        out.append((i, r[1] if r[0] == "ok" else r))
+    return out
 
 
 def run_frameworks(spec, cfg, tmp, np_dir=None, np_existing=False):
@@ -288,7 +314,7 @@ def run_frameworks(spec, cfg, tmp, np_dir=None, np_existing=False):
             ds = cd.CentroidDataset(lb, data_config(cfg), head, **kw)
         else:
             ds = cd.CenteredInstanceDataset(lb, data_config(cfg), tuple(cfg["crop"]), head, **kw)
-        out[fw] = read_history(ds, len(ds))
+        out[fw] = read_history(ds, len(ds), tolerate=(fw == "np" and np_existing))
         owners = [t[0] for t in ds.instance_idx_list] if mt == "centered" else list(ds.lf_idx_list)
         counts[fw] = [owners.count(fi) for fi in range(len(spec["frames"]))]
     lb = build_labels(spec)
@@ -639,7 +665,13 @@ def gen_points(rng, h, w, n_nodes, p_missing):
     cx, cy = rng.randrange(8 * 16, (w - 8) * 16) / 16, rng.randrange(8 * 16, (h - 8) * 16) / 16
     for _ in range(n_nodes):
         if rng.random() < p_missing:
-            pts.append(None)
+            # a missing node is stored either as NaN or — as the GUI does after "mark as not visible" —
+            # with finite coordinates and visible=False
+            if rng.random() < 0.5:
+                pts.append({"hidden": [min(max(cx + rng.randrange(-16 * 16, 16 * 16) / 16, 1.0), w - 2.0),
+                                       min(max(cy + rng.randrange(-16 * 16, 16 * 16) / 16, 1.0), h - 2.0)]})
+            else:
+                pts.append(None)
         else:
             x = min(max(cx + rng.randrange(-24 * 16, 24 * 16) / 16, 1.0), w - 2.0)
             y = min(max(cy + rng.randrange(-24 * 16, 24 * 16) / 16, 1.0), h - 2.0)
@@ -647,14 +679,14 @@ def gen_points(rng, h, w, n_nodes, p_missing):
     return pts
 
 
-def gen_case(rng, mt=None, scale=None, cfg_override=False, extra=None, max_hw_mode=False):
+def gen_case(rng, mt=None, scale=None, cfg_override=False, extra=None, max_hw_mode=False, n_nodes=None):
     """`cfg_override`: the config sets max_height and/or max_width (each component on its own);
     `extra="single_extra"`: single-animal labels in which one frame carries a second, empty instance
     (get_max_instances = 2; region of F-C18b); `extra="all_empty"`: one more labelled frame whose
     instances are all empty (region of F-C18c)."""
     mt = mt or rng.choice(MTS)
-    n_nodes = rng.choice([2, 3])
-    edges = [(i, i + 1) for i in range(n_nodes - 1)]
+    n_nodes = n_nodes or rng.choice([2, 3])
+    edges = [(i, i + 1) for i in range(n_nodes - 1)]     # always within the skeleton's node count
     if n_nodes == 3 and rng.random() < 0.3:
         edges = [(1, 0), (1, 2)]
     # sizes chosen so that eff_scale is 1, dyadic (2) or not dyadic (8/5, 4/3 …) with comparable odds
@@ -676,20 +708,22 @@ def gen_case(rng, mt=None, scale=None, cfg_override=False, extra=None, max_hw_mo
             insts = []
             for _ in range(k):
                 p = gen_points(rng, sizes[vi][0], sizes[vi][1], n_nodes, rng.choice([0.0, 0.0, 0.3]))
-                if all(q is None for q in p):
+                if all(pvis(q) is None for q in p):
                     p[rng.randrange(n_nodes)] = (16.5, 20.25)
                 insts.append(p)
             if mt != "single" and rng.random() < 0.2:
-                insts.insert(rng.randrange(len(insts) + 1), [None] * n_nodes)   # an empty instance
+                # an empty instance: every node NaN or stored invisible with finite coordinates
+                insts.insert(rng.randrange(len(insts) + 1),
+                             [rng.choice([None, None, {"hidden": [12.5, 14.0]}]) for _ in range(n_nodes)])
             # predicted instances next to the user instances: before, between, after, or alone
             mix = rng.choice(["none", "none", "first", "between", "last", "first+last", "only"])
             def pred():
                 q = gen_points(rng, sizes[vi][0], sizes[vi][1], n_nodes, rng.choice([0.0, 0.3]))
-                if all(x is None for x in q):
+                if all(pvis(x) is None for x in q):
                     q[0] = (20.5, 18.25)
                 return {"pred": True, "pts": q}
             if mix == "only":
-                insts = [{"pred": True, "pts": ipts(i)} for i in insts if any(q is not None for q in ipts(i))]
+                insts = [{"pred": True, "pts": iraw(i)} for i in insts if any(q is not None for q in ipts(i))]
             else:
                 if "first" in mix:
                     insts.insert(0, pred())
@@ -881,6 +915,11 @@ def run_case(chk, spec, cfg, alias, tmp, tag, do_model=True, np_dir=None, np_exi
         chk.fail(f"C18 fails ({mt}): {msg}", case, {"np": n_np, "mem": len(idx)},
                  ["existing_chunks_directory_with_surplus_files"] if surplus and n_np > len(idx) else [])
         return 0, [msg]
+    raised = [(i, smp) for i, smp in fwout["np"] if isinstance(smp, tuple)]
+    if raised:
+        msg = f"np_chunks dataset with use_existing_chunks=True: __getitem__({raised[0][0]}) raises {raised[0][1][1:]}"
+        chk.fail(f"C18 fails ({mt}): {msg}", case, msg, [])
+        return 0, [msg]
     for fw in FWS:
         if len(fwout[fw]) != len(hist):
             n_fw = {f: len({i for i, _ in fwout[f]}) for f in FWS}
@@ -951,6 +990,10 @@ def run_case(chk, spec, cfg, alias, tmp, tag, do_model=True, np_dir=None, np_exi
         pred_tag = ("none" if not n_pred else "only" if n_pred == len(fr["insts"]) else
                     "first" if ipred(fr["insts"][0]) else "last" if ipred(fr["insts"][-1]) else "between")
         chk.tag(f"predicted:{pred_tag}/uio:{uio}")
+        n_hidden = sum(1 for i_ in fr["insts"] for q in iraw(i_) if isinstance(q, dict))
+        anchor_hidden = cfg["anchor"] is not None and any(
+            len(iraw(i_)) > cfg["anchor"] and isinstance(iraw(i_)[cfg["anchor"]], dict) for i_ in fr["insts"])
+        chk.tag("hidden_nodes:" + ("anchor" if anchor_hidden else "some" if n_hidden else "none"))
         chk.case((tag, mt, cfg["scale"], cfg["max_stride"], cfg["is_rgb"], uio, json.dumps(fr["insts"]), k) if nz else None,
                  {"mt": mt, "cfg": cfg, "frame": fr, "k": k,
                   "model_mem": models.get((i, "mem"), "")[:300]},
@@ -1450,12 +1493,15 @@ def main(chk: Check):
         # (3c) use_existing_chunks=True on a directory with surplus files (F-C18e, known): A fills, a
         #      smaller B rewrites, then B reads with use_existing_chunks=True
         dirty_fails = False
-        for _ in range(chk.n(1, 4)):
-            mt = rng.choice(MTS)
+        for it in range(chk.n(2, 6)):
+            # iteration 0: bottom-up, A with 2-node instances, B's skeleton with 3 nodes (edge (1,2)): B reading
+            # A's surplus files makes generate_pafs index node 2 of a 2-node array (IndexError) — the
+            # thorough-tier false alarm of seed 1; such a fetch is now recorded, not propagated
+            mt = "bottomup" if it == 0 else rng.choice(MTS)
             sc = 1.0 if mt == "centered" else rng.choice([1.0, 0.5])
             while True:
-                specA, cfgA = gen_case(rng, mt=mt, scale=sc)
-                specB, cfgB = gen_case(rng, mt=mt, scale=sc)
+                specA, cfgA = gen_case(rng, mt=mt, scale=sc, n_nodes=2 if it == 0 else None)
+                specB, cfgB = gen_case(rng, mt=mt, scale=sc, n_nodes=3 if it == 0 else None)
                 nA = len(sample_index(specA, mt, bool(cfgA.get("uio", True))))
                 nB = len(sample_index(specB, mt, bool(cfgB.get("uio", True))))
                 if nB < nA:
